@@ -151,6 +151,48 @@ theorem shrinks_closeListItem (c : Cfg) (l : List Name) : Shrinks (Tree.closeLis
 
 theorem shrinks_popForeign (c : Cfg) : Shrinks (Tree.popForeign c) := shrinks_stack _ (popWhileNot_sub _)
 
+theorem shrinks_popToRoot : Shrinks Tree.popToRoot :=
+  fun _ => ⟨fun _ he => List.mem_of_mem_drop he, fun _ h => h⟩
+
+/-! ### one lemma per shrinking operation (for `apply`) -/
+
+theorem TreeOk.popToRoot' {P : NP} {t : Tree} (ht : TreeOk P t) : TreeOk P (Tree.popToRoot t) := shrinks_popToRoot.ok ht
+
+theorem TreeOk.pop' {P : NP} {t : Tree}  (ht : TreeOk P t) : TreeOk P (Tree.pop t) :=
+  (shrinks_pop).ok ht
+theorem TreeOk.popUntilNamed' {P : NP} {t : Tree} (n : Name) (ht : TreeOk P t) : TreeOk P (Tree.popUntilNamed t n) :=
+  (shrinks_popUntilNamed n).ok ht
+theorem TreeOk.popUntilIn' {P : NP} {t : Tree} (l : List Name) (ht : TreeOk P t) : TreeOk P (Tree.popUntilIn t l) :=
+  (shrinks_popUntilIn l).ok ht
+theorem TreeOk.clearToTableContext' {P : NP} {t : Tree}  (ht : TreeOk P t) : TreeOk P (Tree.clearToTableContext t) :=
+  (shrinks_clearToTableContext).ok ht
+theorem TreeOk.clearToTableBodyContext' {P : NP} {t : Tree}  (ht : TreeOk P t) : TreeOk P (Tree.clearToTableBodyContext t) :=
+  (shrinks_clearToTableBodyContext).ok ht
+theorem TreeOk.clearToTableRowContext' {P : NP} {t : Tree}  (ht : TreeOk P t) : TreeOk P (Tree.clearToTableRowContext t) :=
+  (shrinks_clearToTableRowContext).ok ht
+theorem TreeOk.genImplied' {P : NP} {t : Tree} (ex : Option Name) (ht : TreeOk P t) : TreeOk P (Tree.genImplied t ex) :=
+  (shrinks_genImplied ex).ok ht
+theorem TreeOk.genImpliedThoroughly' {P : NP} {t : Tree}  (ht : TreeOk P t) : TreeOk P (Tree.genImpliedThoroughly t) :=
+  (shrinks_genImpliedThoroughly).ok ht
+theorem TreeOk.closeP' {P : NP} {t : Tree}  (ht : TreeOk P t) : TreeOk P (Tree.closeP t) :=
+  (shrinks_closeP).ok ht
+theorem TreeOk.closePInButtonScope' {P : NP} {t : Tree} (c : Cfg) (ht : TreeOk P t) : TreeOk P (Tree.closePInButtonScope c t) :=
+  (shrinks_closePInButtonScope c).ok ht
+theorem TreeOk.removeFromStack' {P : NP} {t : Tree} (id : Nat) (ht : TreeOk P t) : TreeOk P (Tree.removeFromStack t id) :=
+  (shrinks_removeFromStack id).ok ht
+theorem TreeOk.anyOtherEndTag' {P : NP} {t : Tree} (n : Name) (c : Cfg) (ht : TreeOk P t) : TreeOk P (Tree.anyOtherEndTag c t n) :=
+  (shrinks_anyOtherEndTag c n).ok ht
+theorem TreeOk.pushMarker' {P : NP} {t : Tree}  (ht : TreeOk P t) : TreeOk P (Tree.pushMarker t) :=
+  (shrinks_pushMarker).ok ht
+theorem TreeOk.clearAfeToMarker' {P : NP} {t : Tree}  (ht : TreeOk P t) : TreeOk P (Tree.clearAfeToMarker t) :=
+  (shrinks_clearAfeToMarker).ok ht
+theorem TreeOk.removeFromAfe' {P : NP} {t : Tree} (id : Nat) (ht : TreeOk P t) : TreeOk P (Tree.removeFromAfe t id) :=
+  (shrinks_removeFromAfe id).ok ht
+theorem TreeOk.closeListItem' {P : NP} {t : Tree} (l : List Name) (c : Cfg) (ht : TreeOk P t) : TreeOk P (Tree.closeListItem c l t) :=
+  (shrinks_closeListItem c l).ok ht
+theorem TreeOk.popForeign' {P : NP} {t : Tree} (c : Cfg) (ht : TreeOk P t) : TreeOk P (Tree.popForeign c t) :=
+  (shrinks_popForeign c).ok ht
+
 /-! ### growing operations -/
 
 theorem TreeOk.pushNew {P : NP} {t : Tree} (ht : TreeOk P t) (ns : Ns) (n : Name) (a : Attrs) (h : P n ns) :
